@@ -136,7 +136,8 @@ theorem rr_dispatch_takes_next_slot (w : W) (j : Job) (hr : w.cfg.router = .rr) 
 
 /-! ## Affinity (key-persistent routing) -/
 
-/-- (affinity, the part that is true of the code — `_partial`) With key-persistent routing, for
+/-- (affinity, the part that is true of the code — `_partial`) With key-persistent routing (and, since the F11 fix,
+sticky routing: `hr` is `kp ∨ sq`), for
 every configuration and EVERY sequence of operations (dispatches, completions, expiry, shedding,
 worker failures and kills at any point incl. stale completions, pool growth and shrinkage,
 settings updates, drain, a factory held busy): at any time at most ONE worker slot has a given
@@ -145,13 +146,13 @@ the invariant that makes jobs of a key follow each other onto the same slot acro
 replacement. What it does NOT give is that the ACTORS agree with the bookkeeping: after a stale
 completion (finding F4) the slot's record says the key is no longer in flight while the worker
 still runs it — see the witness below. -/
-theorem affinity_partial (c : CaseCfg) (hr : c.cfg.router = .kp) (steps : List Step) (k : Nat) :
+theorem affinity_partial (c : CaseCfg) (hr : c.cfg.router = .kp ∨ c.cfg.router = .sq) (steps : List Step) (k : Nat) :
     pendCount k ((init c).runSteps steps).pool ≤ 1 ∧ NodupW ((init c).runSteps steps).pool := by
   have h := affInv_runSteps (init c) steps (affInv_init c hr)
   exact ⟨h.aff k, h.nodup⟩
 
 /-- two slots with the same key pending are the same slot -/
-theorem affinity_unique_slot (c : CaseCfg) (hr : c.cfg.router = .kp) (steps : List Step) (k : Nat)
+theorem affinity_unique_slot (c : CaseCfg) (hr : c.cfg.router = .kp ∨ c.cfg.router = .sq) (steps : List Step) (k : Nat)
     (p1 p2 : WP) (h1 : p1 ∈ ((init c).runSteps steps).pool) (h2 : p2 ∈ ((init c).runSteps steps).pool)
     (hk1 : p1.hasPendingKey k = true) (hk2 : p2.hasPendingKey k = true) : p1 = p2 := by
   have h := (affinity_partial c hr steps k).1
@@ -199,7 +200,7 @@ theorem pending_tracks_jobs (c : CaseCfg) (steps : List Step) :
 
 /-- (affinity in terms of jobs) with key-persistent routing, jobs of one key — queued for a slot
 or booked as in flight on it — are never spread over two slots. -/
-theorem affinity_jobs_partial (c : CaseCfg) (hr : c.cfg.router = .kp) (steps : List Step) (k : Nat) (p1 p2 : WP)
+theorem affinity_jobs_partial (c : CaseCfg) (hr : c.cfg.router = .kp ∨ c.cfg.router = .sq) (steps : List Step) (k : Nat) (p1 p2 : WP)
     (h1 : p1 ∈ ((init c).runSteps steps).pool) (h2 : p2 ∈ ((init c).runSteps steps).pool)
     (hk1 : k ∈ keysCurr p1 ++ keysMq p1) (hk2 : k ∈ keysCurr p2 ++ keysMq p2) : p1 = p2 := by
   have t1 := pending_tracks_jobs c steps p1 h1 k
@@ -365,11 +366,12 @@ theorem worker_job_is_booked_partial (c : CaseCfg) (steps : List Step) (hns : no
   obtain ⟨h1, p, hp, h2, h3, h4, _⟩ := ((j_always c steps hns).core hs).held_booked g hal hj
   exact ⟨h1, p, hp, h2, h3, h4⟩
 
-/-- (affinity, actor level — `_partial`) With key-persistent routing, for every configuration and
+/-- (affinity, actor level — `_partial`) With key-persistent routing — and, since the F11 fix, with STICKY routing —,
+for every configuration and
 EVERY sequence of operations without a stale completion: two live worker actors never hold (run, or
 have in their mailbox) jobs of the same key at the same time — across pool growth and shrinkage,
 worker replacement, expiry, shedding, drain and a factory held busy. -/
-theorem key_never_on_two_workers_partial (c : CaseCfg) (hr : c.cfg.router = .kp) (steps : List Step)
+theorem key_never_on_two_workers_partial (c : CaseCfg) (hr : c.cfg.router = .kp ∨ c.cfg.router = .sq) (steps : List Step)
     (hns : noStaleRun (init c) steps = true) :
     let w := (init c).runSteps steps
     w.stopped = false → ∀ aid1 aid2 a1 a2 j1 j2, w.env.getActor aid1 = some a1 → w.env.getActor aid2 = some a2 →
@@ -415,6 +417,34 @@ example : noStaleCompletion f4Info ((init f4Case).runSteps f4Steps).env.log = fa
 example : noStaleRun (init f4Case) f4Steps = false := by decide +kernel
 /-- the prefix before the kill is a run the theorems speak about -/
 example : noStaleRun (init f4Case) (f4Steps.take 5) = true := by decide +kernel
+
+/-! F11 (fixed, repo b8c72a3): sticky routing put one key on two workers WITHOUT a stale completion. An idle worker is
+killed while the factory is held busy; the flush at the release hands job 5 (key 6) to it — the hand-over fails,
+the job is parked at the head of its queue, the slot has nothing in flight —, the router (which looked at the key
+IN FLIGHT only) sends job 6 (key 6) to another worker, then the replacement starts job 5. Real output before the fix:
+`release 3 → build=[2.2,1.3] start=[2:6:6,3:5:6]` (`corpus/C14/e-lts-f11_sticky_handover_to_dead_idle_worker.ops`,
+oracle clause `c14-key-on-two-workers`, not classified stale). Fix: the sticky router keeps a key with the worker that
+has it PENDING (in flight or queued). On the fixed model the witness satisfies the oracle, only the replacement runs
+key 6, job 6 waits behind it — and `key_never_on_two_workers_partial` now covers the sticky router. -/
+def f11Case : CaseCfg :=
+  { cfg := { router := .sq, prioQueue := false, hasHandler := true, table := [], hasCC := true }, n := 2, disc := none, rl := none }
+def f11Info : Info := { router := .sq, prioQueue := false, hasHandler := true, n := 2, disc := none, rl := none }
+def f11Steps : List Step :=
+  [⟨.nop, 0, 2000000, 3000000⟩,
+   ⟨.dispatch 1 1 0 none false, 3000000, 4000000, 5000000⟩, ⟨.dispatch 2 2 0 none false, 5000000, 6000000, 7000000⟩,
+   ⟨.dispatch 3 5 0 none false, 7000000, 8000000, 9000000⟩, ⟨.dispatch 4 5 0 none false, 9000000, 10000000, 11000000⟩,
+   ⟨.dispatch 5 6 0 none false, 11000000, 12000000, 13000000⟩, ⟨.dispatch 6 6 0 none false, 13000000, 14000000, 15000000⟩,
+   ⟨.finish 0 true, 15000000, 16000000, 17000000⟩, ⟨.finish 1 true, 17000000, 18000000, 19000000⟩,
+   ⟨.block, 19000000, 101000000, 101000000⟩, ⟨.kill 1, 101000000, 102000000, 102000000⟩,
+   ⟨.release 3, 102000000, 103000000, 104000000⟩]
+example : runningKeys ((init f11Case).runSteps f11Steps) = [(0, 5), (3, 6)] := by decide +kernel
+example : C14.routingOk f11Info ((init f11Case).runSteps f11Steps).env.log = true := by decide +kernel
+example : noStaleRun (init f11Case) f11Steps = true := by decide +kernel
+/-- the sticky worker's idle neighbour: after `finish 1 ok` two jobs wait in the factory queue while worker 1 is
+idle — sticky routing hands ONE job per completion to a worker (here to worker 0, which runs its key); C14 claims
+"no idle worker while a job waits" for the plain queuer only -/
+example : ((init f11Case).runSteps (f11Steps.take 9)).queue.length = 2 ∧
+    (((init f11Case).runSteps (f11Steps.take 9)).pool.map (·.isAvailable)) = [false, true] := by decide +kernel
 
 /-! F3 (fixed): key-persistent order after growing the pool from 0. On the fixed code the witness
 is handled in dispatch order and satisfies the oracle. -/
@@ -505,7 +535,7 @@ theorem kp_next_job_is_oldest_of_its_key (c : CaseCfg) (hr : c.cfg.router = .kp)
   · obtain ⟨p', hp', hy'⟩ := List.mem_flatMap.mp hy
     -- affinity: all queued jobs of a key sit in one worker's queue
     have hpp : p = p' := by
-      apply affinity_jobs_partial c hr steps x.key p p' hp hp'
+      apply affinity_jobs_partial c (Or.inl hr) steps x.key p p' hp hp'
       · exact List.mem_append_right _ (List.mem_map.mpr ⟨x, hxm, rfl⟩)
       · exact List.mem_append_right _ (List.mem_map.mpr ⟨y, hy', hk⟩)
     subst hpp
